@@ -58,7 +58,10 @@ def history(ops, answers, sides, conc=False):
         e.i, e.line = i, l
         e.op, e.args = (toks[0], toks[1:]) if toks else ("", [])
         e.dropped = False
-        if toks and (toks[0] == "direct" or (toks[0].startswith("drop") and toks[0][4:].isdigit())) and len(toks) > 1:
+        if toks and toks[0].startswith("dropat") and toks[0][6:].isdigit() and len(toks) > 2:
+            e.op, e.args = toks[2], toks[3:]
+            e.dropped = a == "dropped"
+        elif toks and (toks[0] == "direct" or (toks[0].startswith("drop") and toks[0][4:].isdigit())) and len(toks) > 1:
             e.op, e.args = toks[1], toks[2:]
             e.dropped = a == "dropped"
             if e.op == "csub" and len(e.args) == 3:
@@ -319,7 +322,7 @@ def c04(w):
             continue
         sub = [x for x in w.subs.values() if x["inc"] == d["sub_inc"]]
         # --- too late: everything whose lease certainly ended must be in a pull that had room
-        if d["via"] == "pull" and d["ri"] and sub and 1 <= d["max"] <= 1000 and len(d["items"]) < d["max"]:
+        if not getattr(w, "conc", False) and d["via"] == "pull" and d["ri"] and sub and 1 <= d["max"] <= 1000 and len(d["items"]) < d["max"]:
             have = set(m for (_, m, _, _) in d["items"])
             for (sinc, m), (pd, pa) in list(last.items()):
                 if sinc != d["sub_inc"] or m in have:
@@ -755,6 +758,13 @@ def c17(w):
             mal = "project"
         if mal and code != "invalid_argument":
             f.append(("c17:%s:%s" % (e.op, code), "malformed %s in `%s` answered %s (op #%d)" % (mal, e.line[:80], code, e.i)))
+    # a rejected StreamingPull control message changes nothing: stats / ssend / sread(end:invalid_argument) / stats
+    for i in range(len(w.evs) - 3):
+        a, b, c, d = w.evs[i:i + 4]
+        if a.op == "stats" and b.op == "ssend" and c.op == "sread" and d.op == "stats" and a.args == d.args \
+                and "end:invalid_argument" in c.ans and b.ans == "ok" and a.ans != d.ans:
+            f.append(("c17:stream-ctl-partial", "a StreamingPull control message answered INVALID_ARGUMENT changed the subscription: stats %s -> %s (op #%d)"
+                      % (a.ans, d.ans, d.i)))
     # a rejected request changes nothing: stats immediately before and after must agree
     prev = None
     for i, e in enumerate(w.evs):
@@ -919,6 +929,7 @@ def run_seq_oracle(prop, ops, answers, sides, conc=False):
     fn = SEQ_ORACLES.get(prop)
     if fn is not None:
         w = World(evs)
+        w.conc = conc
         for i, l in enumerate(ops):
             if l.startswith("# drain"):
                 w.drain_from = i
